@@ -45,12 +45,14 @@ SITE_FIELD = {
 MUTATION_DRILLS = [
     {"mutation": "Table::Build: write the format tag right after the metadata is allocated (before the data)",
      "ran": "VERIF_REPO=<worktree> bin/check C13 quick",
-     "fired": "translator: prog_KTable has STag before the field stores -> C13_builders_translated_ok fails; sweep: "
-              "partial-accepted:table / load-crash:table at Table::Build:* kill points with a failing input"},
+     "fired": "translator: prog_KTable has STag before the field stores -> C13_builders_translated_ok fails; sweep (small): "
+              "load-crash:table, dump-crash-after-kill, redeploy-failed, stale-after-redeploy:* at Table::Build:index and "
+              "MappedFile::Allocate:zeroed, each with the failing kill point (VIOLATION with replay, exit 1)"},
     {"mutation": "DictCompiler::BuildReverseDb: drop reverse_db.Remove() (revert cda34e2)",
      "ran": "VERIF_REPO=<worktree> bin/check C13 quick",
-     "fired": "translator: bf_remove_before KReverse = false -> proof fails; sweep (edit scenario, dictionary shrinks): "
-              "load-crash:reverse + redeploy-failed at MappedFile::Resize:resized / Create:resized-existing (SIGBUS)"},
+     "fired": "translator: bf_remove_before KReverse = false -> proof fails; sweep (edit / edit-sys, dictionary shrinks): "
+              "load-crash:reverse, redeploy-failed, stale-after-redeploy:* at MappedFile::Resize:resized, "
+              "Create:resized-existing, Create:mapped and at the truncate(2) of t.reverse.bin (SIGBUS), exit 1"},
     {"mutation": "ConfigData::SaveToFile: write in place again (revert 3b794a3)",
      "ran": "VERIF_REPO=<worktree> bin/check C13 quick",
      "fired": "translator: bf_save_mode = InPlace -> proof fails; sweep (bigyaml): stale-after-redeploy:* at "
@@ -234,6 +236,10 @@ def yaml_correspondence(rmodel, facts, res, deplog_names, mism, stats):
 
 
 def run(ctx):
+    # stale replay files of an earlier run of this check would be misleading
+    import glob
+    for old in glob.glob(os.path.join(vlib.VERIF, "replays", "C13-%s-*.json" % ctx.tier)):
+        os.remove(old)
     facts = build_order.generate()
     ctx.coverage["translated_facts"] = {k: facts[k] for k in ("progs", "call_sites", "remove_before", "create_resizes_existing",
                                                                "alloc_zeroes", "open_guarded", "save_mode", "save_why")}
